@@ -674,7 +674,7 @@ class System(BaseModel, Serializable):
                 for j, res in enumerate(self.train_history):
                     for i, var in enumerate(targets[:num_plot]):
                         if (perf := res.get('test_error')) is not None:
-                            test_record[j, i] = perf[var]
+                            test_record[j, i] = perf.get(var, np.nan)  # the test set need not hold every target
 
         while True:
             # Adaptive refinement step
@@ -705,7 +705,8 @@ class System(BaseModel, Serializable):
                 train_result['test_error'] = perf.copy()
 
                 if self.root_dir is not None:
-                    test_record = np.vstack((test_record, np.array([perf[var] for var in targets[:num_plot]])))
+                    test_record = np.vstack((test_record,
+                                             np.array([perf.get(var, np.nan) for var in targets[:num_plot]])))
 
                     if plot_interval > 0 and level % plot_interval == 0:
                         for i in range(num_plot):
